@@ -144,7 +144,7 @@ CHECKS = {
 	'C18': dict(
 		category='exploration',
 		technique='model-based generation of command/library-call histories (Hypothesis lists of steps interpreted against a fresh database copy); invariant after every step: sha256 of both files, nothing flushed, commit raises',
-		text='Histories of 5..25 steps mixing every read-side command (query in all channels/formats, dist --use-db, signatures info/create --db-params, tree), failing commands, library queries with handles left open, ORM edits on each default session (attribute change, add, delete) followed by flush / autoflushing query / commit / rollback, and double opens of the signature file are run against a fresh copy of a generated database whose genome file is put into a drawn valid SQLite configuration (default, WAL, WAL with committed transactions still in the -wal file, PERSIST, other page size, user_version, an older table layout, extra tables/indexes/views), interleaved with writable sessions on unrelated files and with another holder of an exclusive advisory lock on the signature file; after every step the sha256 and size of the .gdb and .gs must equal their initial values, the edited session\'s own connection must still show the original rows and commit() must have raised.',
+		text='Histories of 5..25 steps mixing every read-side command (query in all channels/formats, dist --use-db, signatures info/create --db-params, tree), failing commands, library queries with handles left open, ORM edits on each default session (attribute change, add, delete) followed by flush / autoflushing query / commit / rollback, and double opens of the signature file are run against a fresh copy of a generated database whose genome file is put into a drawn valid SQLite configuration (default, WAL, WAL with committed transactions still in the -wal file, a hot rollback journal left by a crashed writer, PERSIST, other page size, user_version, an older table layout, extra tables/indexes/views), interleaved with writable sessions on unrelated files and with another holder of an exclusive advisory lock on the signature file; after every step the sha256 and size of the .gdb and .gs must equal their initial values, the edited session\'s own connection must still show the original rows and commit() must have raised.',
 		note='Only the bytes of the two database files are compared. In-process CLI via CliRunner. One genuine defect found and repaired (D10: a write-ahead log beside the genome file was checkpointed into it by read-side use).',
 		design='DESIGN.md §4 C18',
 	),
